@@ -3,7 +3,7 @@
    of the driver runs); [original] is the code as it was, for which the two
    liveness clauses are refuted below. *)
 From Coq Require Import List NArith Bool Arith Ascii.
-From Martian.C04 Require Import Model Proofs Proofs_After.
+From Martian.C04 Require Import Model Proofs Proofs_After Proofs_Audit.
 Import ListNotations.
 Open Scope char_scope.
 
@@ -260,6 +260,101 @@ Theorem C04_oracle_accepts_ideal_tunnel : forall early peeked ps,
 Proof. exact oracle_accepts_ideal. Qed.
 Print Assumptions C04_oracle_accepts_ideal_tunnel.
 
+
+(* ---------------- audit round: totality, schedules, aborts, verdict clauses -------------- *)
+
+(* The proxy never blocks an end: it may write while it has not shut, shut while
+   it has not shut, abort once — in every state. *)
+Theorem C04_environment_never_blocked : forall c s l,
+  env_label_ok (c_wr_open s) (c_abort s) (t_wr_open s) (t_abort s) l = true ->
+  exists s', step c s l = Some s'.
+Proof. exact env_never_blocked. Qed.
+Print Assumptions C04_environment_never_blocked.
+
+(* The executable model the driver runs never rejects an admissible script and
+   never runs out of fuel: one view per phase (either configuration). *)
+Theorem C04_model_total : forall c early peeked ps,
+  script_ok true false true false ps = true ->
+  exists vs, run_script c (init early peeked) ps = Some vs /\ length vs = length ps.
+Proof. exact run_script_total_init. Qed.
+Print Assumptions C04_model_total.
+
+(* Refinement in closed form (never None, never OutOfFuel, equal to the spec):
+   on every admissible script without abortive closes the executable model of
+   the repaired code is the ideal tunnel. *)
+Theorem C04_model_is_spec : forall early peeked ps,
+  script_ok true false true false ps = true -> Forall no_abort_phase ps ->
+  run_script repaired (init early peeked) ps = Some (spec_views early peeked ps).
+Proof. exact model_is_spec. Qed.
+Print Assumptions C04_model_is_spec.
+
+(* All schedules: from any reachable state, ANY sequence of internal steps
+   (whatever the order of the two copy loops and the join, whatever each read
+   returns) has at most [measure s] steps, and whenever it ends in a state where
+   none is enabled the two ends see exactly the ideal tunnel.  No search over
+   interleavings is needed to judge an observation: it is unique. *)
+Theorem C04_every_schedule_delivers : forall early peeked tr s tr2 s',
+  reachable repaired early peeked tr s ->
+  client_aborted tr = false -> target_aborted tr = false ->
+  Forall (fun l => internal l = true) tr2 -> run repaired s tr2 = Some s' ->
+  length tr2 <= measure s /\
+  (quiescentb s' = true -> view_of s' = spec_view early peeked tr).
+Proof. exact every_schedule_delivers. Qed.
+Print Assumptions C04_every_schedule_delivers.
+
+(* An abortive close after a checkpoint: on every continuation the surviving
+   end ends up with everything the aborting end ever sent, and that end sends
+   nothing more.  (This is why the oracle may insist on the exact byte count at
+   the survivor in the abort scripts the harness generates.) *)
+Theorem C04_abort_after_checkpoint_keeps_everything : forall early peeked tr s tr' s',
+  reachable repaired early peeked tr s -> quiescentb s = true ->
+  client_aborted tr = false -> target_aborted tr = false ->
+  (run repaired s (ClientAbort :: tr') = Some s' -> t_in s' = c_sent s' /\ c_sent s' = c_sent s) /\
+  (run repaired s (TargetAbort :: tr') = Some s' -> c_in s' = t_sent s' /\ t_sent s' = t_sent s).
+Proof. exact abort_after_checkpoint. Qed.
+Print Assumptions C04_abort_after_checkpoint_keeps_everything.
+
+(* Verdict clauses.  The clause the driver prints for a tunnel case comes from
+   [c04_first_fail]; it reports something iff the oracle rejects, and the
+   clause numbers mean: 2 bytes_* (not a prefix of what was sent), 1 delivery_*
+   (prefix, wrong count at quiescence), 3 eos_* (peer shut, no end-of-stream),
+   4 premature_eos_* (end-of-stream although the peer did not shut). *)
+Theorem C04_report_iff_oracle_rejects : forall ps obs k cn tn cs ts,
+  c04_first_fail k cn tn cs ts ps obs = None <-> c04_ok_from cn tn cs ts ps obs = true.
+Proof. exact c04_first_fail_none_iff. Qed.
+Print Assumptions C04_report_iff_oracle_rejects.
+
+Theorem C04_clause_meaning : forall n w e,
+  (eobs_clause n w (Some e) = 2 <-> o_prefix e = false) /\
+  (eobs_clause n w (Some e) = 1 <-> o_prefix e = true /\ o_n e <> n) /\
+  (eobs_clause n w (Some e) = 3 <-> o_prefix e = true /\ o_n e = n /\ w = true /\ o_eos e = false) /\
+  (eobs_clause n w (Some e) = 4 <-> o_prefix e = true /\ o_n e = n /\ w = false /\ o_eos e = true).
+Proof. exact eobs_clause_meaning. Qed.
+Print Assumptions C04_clause_meaning.
+
+(* connect_status: the client read exactly the expected status (200, or the
+   scripted downstream proxy's own); no response at all is a failure *)
+Theorem C04_status_oracle : 
+  (forall want got, status_ok want got = true <-> got = Some want) /\
+  expected_status None = 200%N /\ (forall code, expected_status (Some code) = code).
+Proof. exact (conj status_ok_iff expected_status_spec). Qed.
+Print Assumptions C04_status_oracle.
+
+(* read_error: a reset stands for end-of-stream only once the peer is gone *)
+Theorem C04_reset_rule : forall g e,
+  (eos_flag g e = None <-> e = ResetEos /\ g = false) /\
+  (eos_flag g e = Some true <-> e = CleanEos \/ (e = ResetEos /\ g = true)) /\
+  (eos_flag g e = Some false <-> e = NoEos).
+Proof. exact eos_flag_spec. Qed.
+Print Assumptions C04_reset_rule.
+
+(* tunnel_bytes_parsed_as_http / client_conn_not_released: with the source facts
+   as they are, agreeing with the model of handleLoop IS satisfying the property *)
+Theorem C04_probe_model_is_property : forall w q,
+  probe_agrees after_tunnel_here w q = probe_ok w q.
+Proof. exact probe_agrees_here. Qed.
+Print Assumptions C04_probe_model_is_property.
+
 (* ---------------- non-vacuity -------------- *)
 
 (* A reachable, quiescent, non-trivial state of the repaired tunnel: early
@@ -317,3 +412,53 @@ Example C04_example_oracle :
   c04_ok 1 0 [mkNphase 1 false 2 false]
     [mkCobs (Some (mkEobs 0 true false)) (Some (mkEobs 2 true false))] None = false.
 Proof. split; vm_compute; reflexivity. Qed.
+
+(* ---------------- non-vacuity of the hypotheses used above -------------- *)
+
+(* original code, nothing early: reachable and quiescent (C04_*_original_partial) *)
+Example C04_example_original_partial :
+  exists s, reachable original [] ["p"] [ClientSend ["x"]; Copy1 1; Copy2 1; ClientShut; Eof1; TargetShut; Eof2; Join] s
+            /\ quiescentb s = true /\ c_abort s = false /\ t_abort s = false
+            /\ c_wr_open s = false /\ t_wr_open s = false /\ closed s = true.
+Proof. eexists. repeat (split; [vm_compute; reflexivity|]). vm_compute; reflexivity. Qed.
+
+(* t_eos / c_eos / closed true in a reachable state (C04_no_premature_eos,
+   C04_released_only_when_both_done) *)
+Example C04_example_eos_and_closed :
+  exists s, reachable repaired [] [] [ClientSend ["x"]; ClientShut; Copy1 9; Eof1; TargetShut; Eof2; Join] s
+            /\ t_eos s = true /\ c_eos s = true /\ closed s = true.
+Proof. eexists. repeat (split; [vm_compute; reflexivity|]). vm_compute; reflexivity. Qed.
+
+(* an admissible script with a half close, an abort and data after the abort
+   (C04_model_total), and an inadmissible one *)
+Example C04_example_script_ok :
+  script_ok true false true false
+    [mkPact ["x"] FinNone ["z"] FinNone; mkPact [] FinShut ["y"] FinNone; mkPact [] FinNone [] FinAbort] = true
+  /\ script_ok true false true false [mkPact [] FinShut [] FinNone; mkPact ["x"] FinNone [] FinNone] = false.
+Proof. split; vm_compute; reflexivity. Qed.
+
+(* an internal schedule from a reachable non-quiescent state, different from the
+   scheduler's, reaching quiescence (C04_every_schedule_delivers) *)
+Example C04_example_other_schedule :
+  exists s s', reachable repaired ["e"] [] [ClientSend ["a"; "b"; "c"]; TargetSend ["z"; "w"]] s
+    /\ run repaired s [Copy2 1; Drain1; Copy1 2; Copy2 5; Copy1 1] = Some s'
+    /\ quiescentb s' = true
+    /\ view_of s' = mkView ["e"; "a"; "b"; "c"] false ["z"; "w"] false false.
+Proof. eexists. eexists. repeat (split; [vm_compute; reflexivity|]). vm_compute; reflexivity. Qed.
+
+(* a checkpoint followed by an abort and more activity
+   (C04_abort_after_checkpoint_keeps_everything) *)
+Example C04_example_abort_after_checkpoint :
+  exists s s', reachable repaired [] [] [ClientSend ["x"]; Copy1 1] s /\ quiescentb s = true
+    /\ run repaired s [ClientAbort; TargetSend ["z"]; Err1; Copy2 1; TargetShut; Eof2; Join] = Some s'
+    /\ t_in s' = ["x"] /\ t_eos s' = true /\ closed s' = true.
+Proof. eexists. eexists. repeat (split; [vm_compute; reflexivity|]). vm_compute; reflexivity. Qed.
+
+(* the four failure clauses each occur *)
+Example C04_example_clauses :
+  eobs_clause 5 true (Some (mkEobs 3 false false)) = 2 /\
+  eobs_clause 5 true (Some (mkEobs 3 true false)) = 1 /\
+  eobs_clause 5 true (Some (mkEobs 5 true false)) = 3 /\
+  eobs_clause 5 false (Some (mkEobs 5 true true)) = 4 /\
+  eobs_clause 5 true (Some (mkEobs 5 true true)) = 0.
+Proof. repeat (split; [vm_compute; reflexivity|]). vm_compute; reflexivity. Qed.
